@@ -1409,7 +1409,10 @@ func c15R3(c *Ctx) {
 		}
 		var skip []Edge
 		if conditional {
-			skip = c13FactEdgesOfConds(fn, c13OrClass(c13EmptyStringClass(at), appliedClass))
+			base := func(_ *ssa.Function, sets []map[ssa.Value]bool) c13CondClass {
+				return c13OrClass(c13EmptyStringClass(sets[0]), appliedClass)
+			}
+			skip = c13FactEdgesOfConds(fn, c13PredicateClass(base, fn, []map[ssa.Value]bool{at}, 2))
 		}
 		sawFiltered := false
 		for _, lf := range c13Leaves(v) {
@@ -1497,6 +1500,12 @@ func c15R4(c *Ctx) {
 		}
 		if !calls {
 			return false
+		}
+		if f.Name() == "Tags" && f.Signature.Recv() != nil {
+			return false // the exported methods are checked by c15TagsMethods
+		}
+		if len(c15StreamListCalls(f)) > 0 {
+			return true
 		}
 		for _, l := range Loops(f) {
 			if ranged, _, _, _, ok := l.RangeMap(); ok {
@@ -1763,7 +1772,106 @@ func c15SortedSource(c *Ctx, v ssa.Value, at ssa.Instruction, isLister map[*ssa.
 	return stores > 0
 }
 
+// c15StreamListCalls: callback calls of f whose list is collected from an
+// iterator pipeline: fn(slices.Sorted(seq)) / slices.Collect(seq) (+ sort).
+func c15StreamListCalls(f *ssa.Function) []ssa.CallInstruction {
+	var out []ssa.CallInstruction
+	for _, cb := range Calls(f, func(n string) bool { return strings.HasPrefix(n, "dyn:param:") }) {
+		if len(cb.Common().Args) != 1 {
+			continue
+		}
+		for _, r := range Roots(cb.Common().Args[0]) {
+			if call, ok := r.(*ssa.Call); ok && (CalleeName(call) == "slices.Sorted" || CalleeName(call) == "slices.Collect") {
+				out = append(out, cb)
+			}
+		}
+	}
+	return out
+}
+
+// c15CheckStreamLister: the lister collects its tags from an iterator
+// pipeline; the per-tag conditions are looked for in the producers, adapters
+// and predicates of the pipeline (c13StreamHasFact).
+func c15CheckStreamLister(c *Ctx, R4 string, f *ssa.Function, cb ssa.CallInstruction) {
+	fn := FnName(f)
+	var last *ssa.Parameter
+	for _, p := range f.Params {
+		if types.Identical(p.Type(), types.Typ[types.String]) {
+			last = p
+		}
+	}
+	top := &c13Frame{Fn: f}
+	var collect *ssa.Call
+	for _, r := range Roots(cb.Common().Args[0]) {
+		if call, ok := r.(*ssa.Call); ok {
+			collect = call
+		}
+	}
+	okSort := CalleeName(collect) == "slices.Sorted"
+	if !okSort {
+		sorts := Calls(f, func(n string) bool { return n == "slices.Sort" || n == "sort.Strings" })
+		okSort = len(sorts) > 0 && MustPass(cb.(ssa.Instruction), newCut().Calls(sorts))
+	}
+	c.Check(R4, fn+"|sorted-before-callback", cb.Pos(), okSort, ifelse(okSort, "the list handed to the callback is slices.Sorted(…) / sorted before the call", "the tags are handed to the callback unsorted"))
+	if last == nil {
+		c.LostAnchor(R4, fn+": `last` parameter")
+		return
+	}
+	lastO := c13Origin{last, top}
+	setsOf := func(fr *c13Frame, elem map[ssa.Value]bool) []map[ssa.Value]bool {
+		return []map[ssa.Value]bool{elem, c13ValuesOriginating(fr, lastO)}
+	}
+	mk := func(base func(fn *ssa.Function, sets []map[ssa.Value]bool) c13CondClass) c13StreamFact {
+		return func(fr *c13Frame, at ssa.Instruction, elem ssa.Value) bool {
+			el := Aliases(elem)
+			edges := c13FactEdgesOfConds(fr.Fn, c13FrameClass(fr, base, setsOf, el, 3))
+			return len(edges) > 0 && MustPass(at, newCut().Edges(edges...))
+		}
+	}
+	seq := collect.Call.Args[0]
+	okAfter, whyA := c13StreamHasFact(seq, top, mk(c15AfterOrNoLastBase), 16)
+	c.Check(R4, fn+"|only-tags-after-last", cb.Pos(), okAfter, ifelse(okAfter, "every element of the iterator pipeline passed last == \"\" or tag > last", "a tag not after `last` can be listed: "+whyA))
+	okDg, whyD := c13StreamHasFact(seq, top, mk(c15NotDigestBase), 16)
+	c.Check(R4, fn+"|digest-entries-skipped", cb.Pos(), okDg, ifelse(okDg, "every element of the iterator pipeline passed tag != desc.Digest.String()", "digest-named entries of the tag map can be listed as tags: "+whyD))
+}
+
+// classifier factories over (tag values, last values)
+func c15AfterBase(_ *ssa.Function, sets []map[ssa.Value]bool) c13CondClass {
+	return func(cond ssa.Value) (bool, bool) {
+		op, other, ok := c13CmpNorm(cond, sets[0])
+		if !ok || !sets[1][other] {
+			return false, false
+		}
+		return op == token.GTR, op == token.LEQ
+	}
+}
+
+func c15AfterOrNoLastBase(fn *ssa.Function, sets []map[ssa.Value]bool) c13CondClass {
+	return c13OrClass(c15AfterBase(fn, sets), c13EmptyStringClass(sets[1]))
+}
+
+func c15NotDigestBase(_ *ssa.Function, sets []map[ssa.Value]bool) c13CondClass {
+	return func(cond ssa.Value) (bool, bool) {
+		op, other, ok := c13CmpNorm(cond, sets[0])
+		if !ok {
+			return false, false
+		}
+		for _, r := range Roots(other) {
+			if call, isCall := r.(*ssa.Call); isCall && CalleeName(call) == "(digest.Digest).String" {
+				return op == token.NEQ, op == token.EQL
+			}
+		}
+		return false, false
+	}
+}
+
 func c15CheckLister(c *Ctx, R4 string, f *ssa.Function) {
+	if cbs := c15StreamListCalls(f); len(cbs) > 0 {
+		for _, cb := range cbs {
+			c15CheckStreamLister(c, R4, f, cb)
+		}
+		return
+	}
 	fn := FnName(f)
 	cb := Calls(f, func(n string) bool { return strings.HasPrefix(n, "dyn:param:") })[0]
 	sorts := Calls(f, func(n string) bool { return n == "slices.Sort" || n == "sort.Strings" })
@@ -1808,31 +1916,7 @@ func c15CheckLister(c *Ctx, R4 string, f *ssa.Function) {
 			continue
 		}
 		tagAl := Aliases(tag)
-		// classifier factories over (tag values, last values), so that predicate helpers can be summarised
-		afterBase := func(_ *ssa.Function, sets []map[ssa.Value]bool) c13CondClass {
-			return func(cond ssa.Value) (bool, bool) {
-				op, other, ok := c13CmpNorm(cond, sets[0])
-				if !ok || !sets[1][other] {
-					return false, false
-				}
-				return op == token.GTR, op == token.LEQ
-			}
-		}
-		afterOrNoLastBase := func(fn *ssa.Function, sets []map[ssa.Value]bool) c13CondClass {
-			return c13OrClass(afterBase(fn, sets), c13EmptyStringClass(sets[1]))
-		}
-		notDigestBase := func(_ *ssa.Function, sets []map[ssa.Value]bool) c13CondClass {
-			return func(cond ssa.Value) (bool, bool) {
-				op, other, ok := c13CmpNorm(cond, sets[0])
-				if !ok {
-					return false, false
-				}
-				if call, isCall := other.(*ssa.Call); isCall && CalleeName(call) == "(digest.Digest).String" {
-					return op == token.NEQ, op == token.EQL
-				}
-				return false, false
-			}
-		}
+		afterBase, afterOrNoLastBase, notDigestBase := c15AfterBase, c15AfterOrNoLastBase, c15NotDigestBase
 		sets := []map[ssa.Value]bool{tagAl, lastAl}
 		afterClass := afterBase(f, sets)
 		after := c13FactEdgesOfConds(f, c13PredicateClass(afterBase, f, sets, 2))
